@@ -12,10 +12,27 @@ type Universe struct {
 	Sigma []string
 	N     int
 	All   []string
+	Map   map[string]string // symbol of the model -> the character it stands for
+}
+
+// real turns a subject string of the model into the bytes it stands for.
+func (u *Universe) real(s string) string {
+	if len(u.Map) == 0 {
+		return s
+	}
+	var b strings.Builder
+	for _, r := range s {
+		if m, ok := u.Map[string(r)]; ok {
+			b.WriteString(m)
+		} else {
+			b.WriteRune(r)
+		}
+	}
+	return b.String()
 }
 
 func newUniverse(sigma []string, n int) *Universe {
-	u := &Universe{Sigma: append([]string{}, sigma...), N: n}
+	u := &Universe{Sigma: append([]string{}, sigma...), N: n, Map: map[string]string{}}
 	sort.Strings(u.Sigma)
 	cur := []string{""}
 	u.All = append(u.All, "")
@@ -42,7 +59,7 @@ func (u *Universe) langOfRegex(text string) (map[string]bool, error) {
 	// `$` without the m flag must not match before a trailing newline in RE2/Go: it does not.
 	l := map[string]bool{}
 	for _, s := range u.All {
-		if re.MatchString(s) {
+		if re.MatchString(u.real(s)) {
 			l[s] = true
 		}
 	}
